@@ -1,3 +1,5 @@
 pub mod card;
 pub mod evaluator;
 pub mod hand_range;
+#[cfg(espada_verif)]
+pub mod verif;
